@@ -282,7 +282,7 @@ func (g *G) hdLine(base string, dash bool) []Part {
 		case 5:
 			ps = append(ps, Part{K: "arith", Expr: []Atom{{P: Lit("1+2")}}})
 		case 6:
-			ps = append(ps, Lit(pickS(g, []string{"\t", " ", "'", `"`, "# c", "日本語", base + " x", " " + base, "}", ")"})))
+			ps = append(ps, Lit(pickS(g, []string{"\t", " ", "'", `"`, "# c", "日本語", base + " x", " " + base, "}", ")", `\"q\"`, `\a`, `\'`})))
 		default:
 			ps = append(ps, Lit(g.litText(1+g.n(5))+" "))
 		}
